@@ -87,7 +87,17 @@ func (c *Ctx) emit(op string, toks []string, implResult string, oracleFail strin
 	if oracleFail == "" {
 		fmt.Fprintln(c.oracle, id+" PASS")
 	} else {
-		fmt.Fprintln(c.oracle, id+" FAIL "+encStr(oracleFail))
+		key := "generic"
+		if strings.HasPrefix(oracleFail, "key=") {
+			parts := strings.SplitN(oracleFail, " ", 2)
+			key = strings.TrimPrefix(parts[0], "key=")
+			oracleFail = ""
+			if len(parts) > 1 {
+				oracleFail = parts[1]
+			}
+		}
+		c.count("oracle-fail-key", key)
+		fmt.Fprintln(c.oracle, id+" FAIL key="+pct(key)+" "+encStr(oracleFail))
 	}
 	if len(c.samples) < 5 || (c.n%997 == 0 && len(c.samples) < 12) {
 		c.samples = append(c.samples, line+"  =>  "+implResult)
